@@ -232,6 +232,22 @@ CLAIMED = {
             'reference manual and the property statement; where the manual is '
             'silent the grammar does not generate.',
             'DESIGN.md section 5, C10'),
+    'C11': ('exploration',
+            'Hypothesis round-trip / fixed-point tests of CRTF serialise->parse '
+            'over classes x frames x coordsys x fmt x radunit x metadata, and a '
+            'grammar-based differential test of the reader against a reference '
+            'interpreter of the CASA rules',
+            'Write side: random lists of CRTF-representable regions; every '
+            'number within half a unit of fmt in the written unit, include / '
+            'ann / label / metadata preserved, caller\'s regions untouched, '
+            'parse->serialise->parse fixed point. Read side: abstract files '
+            'with global/inline precedence, coord=, +/-/ann prefixes, the three '
+            'box forms, all coordinate notations, unit-less lengths rejected. '
+            'Three writer/regex defects are listed known findings, excluded by '
+            'construction and probed.',
+            'Reference reader rules in vf/props/c11.py (from the CASA region '
+            'format description and the property statement).',
+            'DESIGN.md section 5, C11'),
 }
 
 PENDING_REASON = ('check designed (DESIGN.md section 5) but not yet built and '
